@@ -324,7 +324,7 @@ def unit_samples(S):
         ok = len(cs) == 2 and (isinstance(out, (dict, OrderedDict)) if kind == "Dict" else isinstance(out, tuple))
         S.fact(f"{kind}.sample/component-wise", ok, function=f"lerax.space:{kind}.sample", what="each component is a sample of its own sub-space, container layout preserved (member by the children's contracts)")
         if ok:
-            S.prove(f"{kind}.sample/keys-distinct", ctx, keys[0] != keys[1], hyps=[split(kc, 2, 0) != split(kc, 2, 1)], function=f"lerax.space:{kind}.sample", what="components use different derived keys")
+            S.prove(f"{kind}.sample/keys-distinct", ctx, keys[0] != keys[1], hyps=kit.rng_ground_injectivity(keys), function=f"lerax.space:{kind}.sample", what="components use different derived keys (A-RNG: split / fold_in injective in the index; any derivation)")
 
 
 def native_canonical_flatten(seed):
